@@ -402,29 +402,96 @@ func sameNamespace(a, b *observation) bool {
 	return true
 }
 
-// materialize writes an image into dir (wal/ and snap/ sub-directories).
-func materialize(dir string, files map[string][]byte) error {
-	os.RemoveAll(dir)
-	if err := os.MkdirAll(filepath.Join(dir, "snap"), 0o755); err != nil {
-		return err
+// diskCache remembers what the scratch directory holds so that unchanged files are not
+// rewritten between evaluations (the readers under test always see exactly the image).
+type diskCache struct {
+	dir               string
+	have              map[string][]byte
+	dirtyWal, dirtySn bool
+	init              bool
+}
+
+func sameSlice(a, b []byte) bool {
+	if len(a) != len(b) {
+		return false
 	}
-	hasWal := false
-	for p := range files {
-		if strings.HasPrefix(p, "wal/") {
-			hasWal = true
+	if len(a) == 0 {
+		return true
+	}
+	return &a[0] == &b[0]
+}
+
+// materialize makes dir hold exactly the files of the image.
+func (d *diskCache) materialize(files map[string][]byte) error {
+	if !d.init {
+		os.RemoveAll(d.dir)
+		if err := os.MkdirAll(filepath.Join(d.dir, "snap"), 0o755); err != nil {
+			return err
+		}
+		if err := os.MkdirAll(filepath.Join(d.dir, "wal"), 0o755); err != nil {
+			return err
+		}
+		d.have = map[string][]byte{}
+		d.init = true
+	}
+	for _, sub := range []string{"wal", "snap"} {
+		dirty := d.dirtyWal
+		if sub == "snap" {
+			dirty = d.dirtySn
+		}
+		if !dirty {
+			continue
+		}
+		ents, _ := os.ReadDir(filepath.Join(d.dir, sub))
+		for _, e := range ents {
+			os.Remove(filepath.Join(d.dir, sub, e.Name()))
+			delete(d.have, sub+"/"+e.Name())
+		}
+		for p := range d.have {
+			if strings.HasPrefix(p, sub+"/") {
+				delete(d.have, p)
+			}
 		}
 	}
-	if hasWal {
-		if err := os.MkdirAll(filepath.Join(dir, "wal"), 0o755); err != nil {
-			return err
+	d.dirtyWal, d.dirtySn = false, false
+	for p := range d.have {
+		if _, ok := files[p]; !ok {
+			os.Remove(filepath.Join(d.dir, p))
+			delete(d.have, p)
 		}
 	}
 	for p, b := range files {
-		if err := os.WriteFile(filepath.Join(dir, p), b, 0o600); err != nil {
+		if old, ok := d.have[p]; ok && sameSlice(old, b) {
+			continue
+		}
+		if err := os.WriteFile(filepath.Join(d.dir, p), b, 0o600); err != nil {
 			return err
 		}
+		d.have[p] = b
 	}
 	return nil
+}
+
+// snapDirChanged marks the snapshot directory dirty if a reader renamed a file.
+func (d *diskCache) snapDirChanged() {
+	ents, _ := os.ReadDir(filepath.Join(d.dir, "snap"))
+	n := 0
+	for _, e := range ents {
+		if !strings.HasSuffix(e.Name(), ".snap") {
+			d.dirtySn = true
+			return
+		}
+		n++
+	}
+	m := 0
+	for p := range d.have {
+		if strings.HasPrefix(p, "snap/") {
+			m++
+		}
+	}
+	if n != m {
+		d.dirtySn = true
+	}
 }
 
 // finalImage is the directory content at the last observation (relevant files only).
